@@ -582,7 +582,7 @@ def r3(ctx):
         for w in seen.get("?", []):
             ctx.bad("R08.3", b + ":paths", "unclassified-path", c.loc(fn), w)
         ctx.check("R08.3", b + ":first-layer", first_ok is True, "first-layer-input", c.loc(fn), "first layer takes self.input")
-    ctx.floor("R08.3", 25 + 5 + 4, "5 builders x 5 variants + 5 first-layer facts + 4 in-block chaining facts")
+    ctx.floor("R08.3", 25 + 5 + 4 + 1, "5 builders x 5 variants + 5 first-layer facts + 4 in-block chaining facts + layer positions fixed")
 
 
 SIZE_FNS = ["convolution::Convolution::calculate_output_size", "deconvolution::Deconvolution::calculate_output_size", "maxpool::Maxpool::calculate_output_size",
@@ -620,6 +620,7 @@ def r6_flatten_on_dense(ctx):
     ctx.check("R08.6", "flatten-on-dense", not bad and len(mine) >= 3, "flatten-on-dense-broken", "src", "%d spatial layer kinds return post.flatten() iff self.flatten" % len(mine))
 
 
+RULES["R08.3"] += " | layer-positions-fixed: over every function of the crate, Network.layers is only appended to (push) and its entries updated in place - never reordered, dropped, replaced or handed out as a whole by &mut (the chain of announced shapes holds for the list as it was built)"
 RULES["R08.6"] = "flat <-> CxHxW transitions: Tensor::flatten / get_flat / get_triple are row-major over (channels, rows, columns); the tensor constructors record the extents of the nesting they are given, in order (R14.2 / R14.3 re-run under this property)"
 
 
@@ -633,6 +634,8 @@ def run(ctx):
     ctx.guard("R08.1", "announced-vs-produced", r1, ctx)
     ctx.guard("R08.2", "gradient-shapes", r2, ctx)
     ctx.guard("R08.3", "builder-chaining", r3, ctx)
+    from .c10 import layer_list_stable
+    ctx.guard("R08.3", "layer-positions", layer_list_stable, ctx, "R08.3", "network::Network")
     ctx.guard("R08.5", "axis-typing", spatial.axis_typing, ctx, "R08.5", SIZE_FNS, 88)  # measured 177
     ctx.floor("R08.1", 24, "sizes, channels, substitution facts")
     ctx.floor("R08.2", 12, "")
